@@ -1113,7 +1113,17 @@ func runFlushClose(rng *hx.Rng, r *hx.Run) result {
 	base := mapdb.NewMapDB()
 	var hook func()
 	ps := &parkStore{KVStore: base, hook: &hook}
-	fv, err := flushkv.New(ps).WithRealm([]byte{0x01})
+	// the wrapper chain above the parking store: flushkv alone, flushkv over debug, debug over flushkv
+	var chain kvstore.KVStore
+	switch rng.Intn(3) {
+	case 0:
+		chain = flushkv.New(ps)
+	case 1:
+		chain = flushkv.New(debug.New(ps, w.callback))
+	default:
+		chain = debug.New(flushkv.New(ps), w.callback, debug.SetCommand, debug.ClearCommand)
+	}
+	fv, err := chain.WithRealm([]byte{0x01})
 	if err != nil {
 		panic(err)
 	}
@@ -1934,9 +1944,11 @@ func main() {
 	// quick tier: two more plans run by the -race build of this harness (the thorough tier is a -race build as a whole), so that
 	// a pure data race - no wrong answer, no crash - yields a failing input here too
 	if r.Tier != "thorough" && os.Getenv("C05_RACE_BIN") != "" && nProbes > 0 {
-		for p := 0; p < 2; p++ {
+		for p := 0; p < 3; p++ {
 			rng, sub := r.Rng.Fork()
+			oneHome = p == 2 // third plan: all goroutines on ONE view object (per-view state shared by concurrent readers)
 			plan := genProbePlan(rng, rng.Intn(nWraps), rng.Range(6, 12), 24, 150, p == 1)
+			oneHome = false
 			plan[0] += " race=1"
 			if died, oracle := runProbe(r, sub, plan, 10+p); died {
 				if oracle != "deadlock" && oracle != "race-free" {
